@@ -53,7 +53,7 @@ REAL = ['asyncssh stream.py (SSHReader/SSHWriter/SSHStreamSession), '
         'process.py (SSHClientProcess/SSHServerProcess, redirection), '
         'channel, connection of both endpoints']
 STUB = ['event loop + clock', 'TCP', 'executor', 'OS randomness']
-PROBES = ['redirect_concat', 'read_cancelled', 'async_iteration', 'mode_reader', 'mode_run', 'mode_redirect', 'text_mode',
+PROBES = ['redirect_switched', 'redirect_concat', 'read_cancelled', 'async_iteration', 'mode_reader', 'mode_run', 'mode_redirect', 'text_mode',
           'tiny_packets', 'readuntil_multi', 'readuntil_regex',
           'incomplete_read_at_eof', 'limit_overrun', 'exit_signal',
           'exit_status', 'redirect_process', 'redirect_file',
@@ -92,7 +92,8 @@ def render(idx, text):
 
 TARGETS = ['file', 'devnull', 'process', 'stdin_file', 'stream_out',
            'stream_in', 'process_in', 'afile_out', 'afile_in',
-           'stderr_stdout', 'fileobj_out', 'drain_redirected', 'concat']
+           'stderr_stdout', 'fileobj_out', 'drain_redirected', 'concat',
+           'switch']
 
 
 def gen_chunks(rng, total):
@@ -819,7 +820,7 @@ def run_plan(plan, sched_seed=None, sched_replay=None):
                     wr.close()
                     srv.close()
                     await srv.wait_closed()
-                elif target in ('afile_out', 'afile_in'):
+                elif target in ('afile_out', 'afile_in', 'switch'):
                     class AFile:
                         """File-like object with coroutine methods"""
 
@@ -857,6 +858,28 @@ def run_plan(plan, sched_seed=None, sched_replay=None):
                         proc = await conn.create_process('cmd', stdout=af,
                                                          **kw)
                         await write_stdin(proc)
+                    elif target == 'switch':
+                        # the redirect is changed while data is flowing:
+                        # a prefix goes to the first target, the rest to
+                        # the second, both are closed
+                        af2 = AFile([])
+                        res['afile2'] = af2
+                        proc = await conn.create_process('cmd', stdout=af,
+                                                         **kw)
+                        w = sim.track('cli-stdin', write_stdin(proc))
+
+                        for _ in range(plan.get('late', 0)):
+                            await sim.pause('switch-redirect')
+
+                        if proc.is_closing():
+                            # (too late: redirecting the output of a
+                            # channel that is gone is not judged)
+                            af2.closed = True
+                        else:
+                            await proc.redirect(stdout=af2)
+                            sim.probes['redirect_switched'] += 1
+
+                        await w
                     else:
                         proc = await conn.create_process('cmd', stdin=af,
                                                          **kw)
@@ -1024,6 +1047,23 @@ def run_plan(plan, sched_seed=None, sched_replay=None):
                                               else len(got),
                                               af and af.closed, len(want)),
                             sig=target)
+                elif target == 'switch':
+                    want = s_out.encode('utf-8') if text else s_out
+                    af, af2 = res.get('afile'), res.get('afile2')
+                    got = b''.join(af.written) + b''.join(af2.written) \
+                        if af and af2 else None
+
+                    if got != want or not af.closed or not af2.closed:
+                        world.violation(
+                            'redirect-mismatch', 'stdout redirected to an '
+                            'async file object and, %d events later, to a '
+                            'second one: %r + %r bytes written (closed: %s, '
+                            '%s), %d sent' %
+                            (plan.get('late', 0),
+                             af and sum(map(len, af.written)),
+                             af2 and sum(map(len, af2.written)),
+                             af and af.closed, af2 and af2.closed,
+                             len(want)), sig=target)
                 elif target == 'stderr_stdout':
                     merged = res.get('merged')
                     ok = merged is not None and \
